@@ -152,6 +152,11 @@ fn child(name: &str, args: &[String]) -> i32 {
             let c: c18::RawWriter = serde_json::from_str(&std::fs::read_to_string(file).expect("case file")).expect("case json");
             c18::raw_writer_child(&c)
         }
+        "c18dev" => {
+            let Some(file) = args.first() else { return 2 };
+            let c: c18::Device = serde_json::from_str(&std::fs::read_to_string(file).expect("case file")).expect("case json");
+            c18::device_child(&c)
+        }
         "c11tls" => child::child_main::<c11::Teardown>(args, c11::teardown_child),
         "c11stderr" => child::child_main::<c11::Teardown>(args, c11::broken_stderr_child),
         "c16real" => child::child_main::<c16::RealClockChild>(args, c16::real_clock_child),
